@@ -523,7 +523,8 @@ def _eq_opt(a, b):
 def check_structure(cv, sv, ch, emit, tag):
     """All clauses of C16 on one (cycle_vect, subset_vect, chain_vect) structure; returns list of (clause, detail)."""
     import emd._cycles_support as CS
-    cv, sv, ch = np.asarray(cv), np.asarray(sv), np.asarray(ch)
+    cv, sv, ch = np.array(cv), np.array(sv), np.array(ch)
+    keep = (cv.copy(), sv.copy(), ch.copy())            # every call below receives these same three vectors
     bad = []
     s2c, c2k, k2h = ref_maps(cv, sv, ch)
     nS, nC, nK = len(cv), len(sv), len(ch)
@@ -598,29 +599,33 @@ def check_structure(cv, sv, ch, emit, tag):
         e = np.array([np.nan if v is None else v for v in exp], dtype=float)
         if got.shape != e.shape or not np.array_equal(np.isnan(got), np.isnan(e)) or not np.allclose(got[~np.isnan(e)], e[~np.isnan(e)]):
             bad.append(('projection-places-values-exactly:%s' % name, 'got %s expected %s' % (got.tolist(), e.tolist())))
-    # non-integer values (means, ratios): a projection must carry them unaltered
-    cvals = 10.25 + 1.5 * np.arange(nC)
-    kvals = 100.75 + 0.5 * np.arange(nK)
-    hvals = 0.25 + 2.5 * np.arange(nH)
-    ok, r = call('proj', CS.project_cycles_to_samples, cvals, cv)
-    if ok:
-        projcheck('project_cycles_to_samples', r, [None if c is None else cvals[c] for c in s2c])
-    if nK:
-        ok, r = call('proj', CS.project_subset_to_cycles, kvals, sv)
+    # three value sets per level: non-integer values (means, ratios), and integer-valued ones that COLLIDE with the index range of their own level
+    # (counts, positions: the value at item i equals the index of another item) - a projection carries any value unaltered, whatever it looks like
+    for tag_, mk_ in (('', lambda n, a0, st: a0 + st * np.arange(n)), (':values-equal-to-other-indices', lambda n, a0, st: np.arange(n)[::-1].astype(float)),
+                      (':values-equal-to-later-indices', lambda n, a0, st: (np.arange(n) + 1.0) % max(n, 1))):
+        cvals, kvals, hvals = mk_(nC, 10.25, 1.5), mk_(nK, 100.75, 0.5), mk_(nH, 0.25, 2.5)
+        ok, r = call('proj', CS.project_cycles_to_samples, cvals, cv)
         if ok:
-            projcheck('project_subset_to_cycles', r, [None if k is None else kvals[k] for k in c2k])
-        ok, r = call('proj', CS.project_subset_to_samples, kvals, sv, cv)
-        if ok:
-            projcheck('project_subset_to_samples', r, [None if (c is None or c2k[c] is None) else kvals[c2k[c]] for c in s2c])
-        ok, r = call('proj', CS.project_chain_to_subset, hvals, ch)
-        if ok:
-            projcheck('project_chain_to_subset', r, [hvals[h] for h in k2h])
-        ok, r = call('proj', CS.project_chain_to_cycles, hvals, ch, sv)
-        if ok:
-            projcheck('project_chain_to_cycles', r, [None if k is None else hvals[k2h[k]] for k in c2k])
-        ok, r = call('proj', CS.project_chain_to_samples, hvals, ch, sv, cv)
-        if ok:
-            projcheck('project_chain_to_samples', r, [None if (c is None or c2k[c] is None) else hvals[k2h[c2k[c]]] for c in s2c])
+            projcheck('project_cycles_to_samples' + tag_, r, [None if c is None else cvals[c] for c in s2c])
+        if nK:
+            ok, r = call('proj', CS.project_subset_to_cycles, kvals, sv)
+            if ok:
+                projcheck('project_subset_to_cycles' + tag_, r, [None if k is None else kvals[k] for k in c2k])
+            ok, r = call('proj', CS.project_subset_to_samples, kvals, sv, cv)
+            if ok:
+                projcheck('project_subset_to_samples' + tag_, r, [None if (c is None or c2k[c] is None) else kvals[c2k[c]] for c in s2c])
+            ok, r = call('proj', CS.project_chain_to_subset, hvals, ch)
+            if ok:
+                projcheck('project_chain_to_subset' + tag_, r, [hvals[h] for h in k2h])
+            ok, r = call('proj', CS.project_chain_to_cycles, hvals, ch, sv)
+            if ok:
+                projcheck('project_chain_to_cycles' + tag_, r, [None if k is None else hvals[k2h[k]] for k in c2k])
+            ok, r = call('proj', CS.project_chain_to_samples, hvals, ch, sv, cv)
+            if ok:
+                projcheck('project_chain_to_samples' + tag_, r, [None if (c is None or c2k[c] is None) else hvals[k2h[c2k[c]]] for c in s2c])
+    if not all(np.array_equal(u, v) for u, v in zip((cv, sv, ch), keep)):
+        bad.append(('maps-leave-the-index-vectors-unchanged', 'after all map_* / project_* calls the cycle / subset / chain vectors are %s %s %s, they were %s %s %s' % (
+            cv.tolist(), sv.tolist(), ch.tolist(), keep[0].tolist(), keep[1].tolist(), keep[2].tolist())))
     return bad
 
 
